@@ -106,7 +106,21 @@ Diamond ==
       X1 == Cert(3, "X", "kX", "Y", "kY") X2 == Cert(4, "X", "kX", "Z", "kZ")
       L == Leaf(0, "L", "kL", "X", "kX", DNS0)
   IN [certs |-> Fn({R, Y, Z, X1, X2, L}), leaf |-> 0, inters |-> {1, 2, 3, 4}, roots |-> {9}, order |-> <<>>, q |-> Q0, tmpl |-> <<"diamond", 0>>]
-Templates == {Linear(0), Linear(1), Linear(2), Cross, Loop, Diamond}
+\* two intermediates below a root R that is trusted directly AND cross-certified by another trusted root R0
+\* (R' = the cross-certificate, same name and key as R, among the intermediates): two valid chains of different length
+DeepCross ==
+  LET R0 == Cert(8, "R0", "kR0", "R0", "kR0") R == Cert(9, "R", "kR", "R", "kR")
+      Rx == Cert(3, "R", "kR", "R0", "kR0")
+      I2 == Cert(2, "I2", "k2", "R", "kR") I1 == Cert(1, "I1", "k1", "I2", "k2")
+      L == Leaf(0, "L", "kL", "I1", "k1", DNS0)
+  IN [certs |-> Fn({R0, R, Rx, I2, I1, L}), leaf |-> 0, inters |-> {1, 2, 3}, roots |-> {8, 9}, order |-> <<>>, q |-> Q0, tmpl |-> <<"deepcross", 0>>]
+\* two trusted certificates for the same root name and key (a renewed root next to the old one) above two intermediates
+TwinRoots ==
+  LET Ra == Cert(8, "R", "kR", "R", "kR") Rb == [Cert(9, "R", "kR", "R", "kR") EXCEPT !.na = 9]
+      I2 == Cert(2, "I2", "k2", "R", "kR") I1 == Cert(1, "I1", "k1", "I2", "k2")
+      L == Leaf(0, "L", "kL", "I1", "k1", DNS0)
+  IN [certs |-> Fn({Ra, Rb, I2, I1, L}), leaf |-> 0, inters |-> {1, 2}, roots |-> {8, 9}, order |-> <<>>, q |-> Q0, tmpl |-> <<"twinroots", 0>>]
+Templates == {Linear(0), Linear(1), Linear(2), Cross, Loop, Diamond, DeepCross, TwinRoots}
 
 \* --- knobs: one change to one certificate or to the query ---
 CertKnobs == {"none", "expired", "notyet", "notca", "nocertsign", "pathlen0", "pathlen1", "forged", "permit_ok", "permit_other", "crit",
